@@ -50,6 +50,9 @@ func key(p string, id uint64) string { return fmt.Sprintf("%s/%d", p, id) }
 
 const anyID = ^uint64(0)
 
+// AnyID stands for "whatever the id" in Arm / Release / Parked / WaitParked.
+const AnyID = anyID
+
 func (c *Ctl) Hook(point string, obj interface{}, id uint64, n int) {
 	c.mu.Lock()
 	oi, ok := c.objs[obj]
@@ -139,6 +142,14 @@ func (c *Ctl) ReleaseAll() {
 func (c *Ctl) Parked(point string, id uint64) bool {
 	c.mu.Lock()
 	defer c.mu.Unlock()
+	if id == anyID {
+		for k, n := range c.parked {
+			if n > 0 && strings.HasPrefix(k, point+"/") {
+				return true
+			}
+		}
+		return false
+	}
 	return c.parked[key(point, id)] > 0
 }
 
